@@ -42,7 +42,25 @@ func exploreWithSetup(opt vrt.Options, bound int, maxExecs int64, setup func(), 
 // counted and checked by shard 0 only.
 func exploreSharded(opt vrt.Options, bound int, maxExecs int64, setup func(), body func(), check func(v vrt.Verdict, prefix []int), shard, nshards int) exploreStats {
 	st := exploreStats{Bound: bound}
+	// Every execution must start from the package-level state of a fresh process (pkgstate.go): a
+	// cache or memo added to the code under test must not make an execution depend on which
+	// executions ran before it. Restoring that state costs as much as a short execution, so it is
+	// done before every execution only if an execution was seen to change it ("cold" mode): if the
+	// two default runs differ, or if the digest of all package variables at the end of the
+	// exploration differs from the pristine digest, the exploration is (re)done in cold mode.
+	cold := false
+	tracked := len(pkgSnap) > 0
+	if tracked && !pkgStateClean {
+		restorePackageState()
+		pkgStateClean = true
+	}
+	if tracked && pristineDigest == 0 {
+		pristineDigest = deepDigest(packageState()...)
+	}
 	run := func(prefix []int) vrt.Verdict {
+		if cold {
+			restorePackageState()
+		}
 		if setup != nil {
 			setup()
 		}
@@ -50,10 +68,19 @@ func exploreSharded(opt vrt.Options, bound int, maxExecs int64, setup func(), bo
 		o.Prefix = prefix
 		return vrt.Run(o, body)
 	}
-	a, b := run(nil), run(nil)
-	if fmt.Sprint(choiceShape(a)) != fmt.Sprint(choiceShape(b)) || a.Ticks != b.Ticks {
+	for {
+		a, b := run(nil), run(nil)
+		if fmt.Sprint(choiceShape(a)) == fmt.Sprint(choiceShape(b)) && a.Ticks == b.Ticks {
+			break
+		}
+		if tracked && !cold {
+			// the second run may have seen what the first left in a package variable
+			cold = true
+			continue
+		}
 		panic(vrt.InfraError{Msg: fmt.Sprintf("replay of the default schedule diverged: %v (%d ticks) vs %v (%d ticks)", choiceShape(a), a.Ticks, choiceShape(b), b.Ticks)})
 	}
+restart:
 	type item struct {
 		prefix []int
 	}
@@ -66,10 +93,12 @@ func exploreSharded(opt vrt.Options, bound int, maxExecs int64, setup func(), bo
 			queues[cost] = queues[cost][:n-1]
 			if maxExecs > 0 && st.Execs >= maxExecs {
 				st.Capped = true
+				pkgStateClean = false
 				return st
 			}
 			if !exploreDeadline.IsZero() && st.Execs&0x3f == 0 && time.Now().After(exploreDeadline) {
 				st.Capped = true
+				pkgStateClean = false
 				return st
 			}
 			v := run(it.prefix)
@@ -110,8 +139,23 @@ func exploreSharded(opt vrt.Options, bound int, maxExecs int64, setup func(), bo
 			}
 		}
 	}
+	if tracked && !cold && deepDigest(packageState()...) != pristineDigest {
+		cold = true
+		st = exploreStats{Bound: bound}
+		goto restart
+	}
+	if cold {
+		pkgStateClean = false
+	}
 	return st
 }
+
+// pkgStateClean: the package variables are known to hold their initial values (the last
+// exploration ended in the fast mode with an unchanged digest). pristineDigest: their digest.
+var (
+	pkgStateClean  bool
+	pristineDigest uint64
+)
 
 func choiceShape(v vrt.Verdict) []int {
 	out := make([]int, len(v.Choices))
